@@ -3,6 +3,8 @@ use std::{future::Future, sync::Arc, time::Duration};
 use crate::{Actor, DynResult};
 
 use super::{ActorHandle, JoinFuture, Spawner};
+#[cfg(feature = "verif")]
+use crate::verif::{async_lock_shim as async_lock, tokio_shim as tokio};
 
 #[derive(Copy, Clone, Debug, Default)]
 pub struct TokioSpawner;
